@@ -879,7 +879,7 @@ def scenarios(quick):
                 deep = gpus == 1 and d == '1c' and \
                        p in ('ok', 'ok/t', 'hang/t', 'nofork')
                 add('one', cores, gpus, [R(d, p)],
-                    bound=(2 if deep else 1) if quick else 3)
+                    bound=(2 if deep else 1) if quick else 2)
         for p in PAYLOADS:
             add('one', cores, gpus, [R('1c', p, True)], lines='all', bound=1)
             add('one', cores, gpus, [R('1c', p, True)],
@@ -887,7 +887,7 @@ def scenarios(quick):
 
     # F2: two requests in one stream: every demand pair x every outcome pair
     dem2  = ('1c', '2c', '1c1g', 'over')
-    core2 = ('ok', 'hang/t', 'ok/t', 'nofork')
+    core2 = ('ok', 'hang/t', 'ok/t')
     for d1 in dem2:
         for d2 in dem2:
             for p1 in PAYLOADS:
@@ -900,7 +900,7 @@ def scenarios(quick):
                         continue      # like `raise` for the worker side;
                                       # covered by the one-request family
                     deep = not quick and p1 in core2 and p2 in core2 \
-                           and 'over' not in (d1, d2)
+                           and (d1, d2) in (('1c', '2c'), ('1c1g', '1c1g'))
                     add('two', 2, 1, [R(d1, p1), R(d2, p2)],
                         bound=2 if deep else 1)
 
@@ -927,7 +927,8 @@ def scenarios(quick):
         for d2 in ('1c', '2c', '1c1g'):
             for p in ('ok', 'hang/t'):
                 add('streams', 2, 1, [R(d1, p), R(d2, 'ok')],
-                    streams=[[0], [1]], bound=1 if quick else 2)
+                    streams=[[0], [1]],
+                    bound=2 if (not quick and p == 'ok') else 1)
     add('streams', 2, 1, [R('1c', 'ok'), R('1c', 'ok'), R('1c', 'ok')],
         streams=[[0, 1], [2]], bound=1)
     return out
@@ -1008,13 +1009,14 @@ def run(ctx):
     _deadline = time.time() + (70 if ctx.quick else 1020)
     _slot = multiprocessing.get_context('fork').Value('i', 0)
     _scns = scenarios(ctx.quick)
-    cap   = 20000 if ctx.quick else 60000
+    cap   = 20000 if ctx.quick else 100000
     for s in _scns:
         s['max_exec'] = cap
     errs = list()
     # largest scenarios first
     order = sorted(range(len(_scns)),
-                   key=lambda i: (-len(_scns[i]['reqs']), -_scns[i]['bound']))
+                   key=lambda i: (-_scns[i]['bound'], -len(_scns[i]['reqs']),
+                                  _scns[i]['lines'] != 'all'))
     for res in seams.pmap(_job, order, ctx.workers, init=_pin):
         keep = list()
         for key, detail, rep in res['violations']:
